@@ -158,6 +158,11 @@ theorem Evo.cancelKindFor_fst {w0 w : World} (h : Evo w0 w) (p : Pid) (act : Nat
   unfold Sim.cancelKindFor
   exact Evo.foldl (fun w q => by evo) _ h
 macro_rules | `(tactic| evo_step) => `(tactic| with_reducible apply Evo.cancelKindFor_fst)
+theorem Evo.cancelUserAll_fst {w0 w : World} (h : Evo w0 w) :
+    Evo w0 (cancelUserAll w).1 := by
+  unfold Sim.cancelUserAll
+  exact Evo.foldl (fun w q => by evo) _ h
+macro_rules | `(tactic| evo_step) => `(tactic| with_reducible apply Evo.cancelUserAll_fst)
 
 theorem Evo.recordRes {w0 w : World} (h : Evo w0 w) (r : Nat) : Evo w0 (recordRes w r) := by
   unfold Sim.recordRes; evo
